@@ -149,7 +149,13 @@ def specCheck (req : Request) (vt vt' : VTState) (ret : Int) (bytes : List UInt8
         (firstNonEmpty [commonCheck vt vt', gridCheck vt' vt.grid, cursorCheck vt' vt.row vt.col false], true)
       else
         let cur := match me with
-          | .no => cursorCheck vt' vt.row vt.col false
+          | .no =>
+            let base := cursorCheck vt' vt.row vt.col false
+            if base = "" then "" else
+            -- diagnostic context (lets a known-finding signature be specific)
+            let delta := vt'.col - vt.col
+            let dstr := if delta > 0 ∧ delta % 64 = 0 then s!"+{delta}=64x{delta / 64}" else if delta ≥ 0 then s!"+{delta}" else s!"{delta}"
+            s!"{base} [erase {if vt.col + n = vt.cols then "to-last-col" else "mid-row"} row-delta={vt'.row - vt.row} col-delta={dstr}]"
           | .yes =>
             if vt.col + n < vt.cols then cursorCheck vt' vt.row (vt.col + n) false
             else if vt'.row = vt.row ∧ vt'.col = vt.cols - 1 then ""     -- requested column `cols` is not on the screen
@@ -193,7 +199,7 @@ def parseObs (impl : String) : Option (List UInt8 × Int) :=
 def b01 (b : Bool) : String := if b then "1" else "0"
 
 def doRequest (st : St) (req : Request) (impl : String) : St × String × String :=
-  let (ret, bytes) := request ⟨Gen.XTermFacts.scrollGuard, Gen.XTermFacts.eraseKeepsCount⟩ st.drv req
+  let (ret, bytes) := request ⟨Gen.XTermFacts.scrollGuard, Gen.XTermFacts.eraseKeepsCount, Gen.XTermFacts.printnGuard⟩ st.drv req
   let mobs := s!"{bytesHex bytes} ret={b01 ret}"
   match parseObs impl with
   | none => (st, mobs, "")     -- CRASH / malformed: the comparison reports it
